@@ -165,6 +165,7 @@ func init() {
 			// "...or an earlier call" on the same schema object with another destination type
 			items = append(items, layoutItems(tier, "C01", "issues-missing", "panic")...)
 			items = append(items, preprocItem("C01", "clean-despite-violation", "panic"))
+			items = append(items, Item{Name: "tests-sharing-a-code", MaxDevs: -1, Run: c01SharedCodeScenario})
 			items = append(items, Item{Name: "number-bound-chains", MaxDevs: -1, Run: c01NumberChainScenario})
 			items = append(items, Item{Name: "length-and-instant-bound-chains", MaxDevs: -1, Run: c01OtherChainScenario})
 			return append(items, Item{Name: "builtin-tests-on-long-values", MaxDevs: -1, Run: c01BuiltinLongScenario})
@@ -624,4 +625,143 @@ func c01BoundOpts(kind int) []z.TestOption {
 		return []z.TestOption{z.Message("out of bounds")}
 	}
 	return nil
+}
+
+// Several hand-written tests of one node may share their issue code, path and options (a family of rules reported
+// under one code; the products of one reusable test factory): each is still a test of its own. One execution =
+// one node kind (String, Int, Slice, Struct) carrying two or three such tests with different predicates, one
+// subject, placement, mode: the number of issues is the number of violated predicates.
+type c01Rules struct {
+	S string
+	N int
+	L []int
+}
+
+func c01SharedCodeScenario(x *mc.X) *mc.Outcome {
+	zh.Reset()
+	zh.Install(x, zh.PoolLIFO, zh.OrderSorted)
+	kind := x.Choose(4, "node kind")
+	ntests := 2 + x.Choose(2, "tests")
+	how := x.Choose(3, "declared through") // 0 TestFunc(fn, IssueCode), 1 Test(z.TestFunc(code, fn)), 2 Test(copies of one reusable z.Test value with another Func)
+	subj := x.Choose(4, "subject")
+	mode := x.Choose(2, "mode")
+	strPreds := []func(string) bool{func(v string) bool { return len(v) >= 3 }, func(v string) bool { return strings.ContainsAny(v, "0123456789") }, func(v string) bool { return v != "abc1" }}
+	intPreds := []func(int) bool{func(v int) bool { return v > 2 }, func(v int) bool { return v%2 == 0 }, func(v int) bool { return v != 8 }}
+	lenPreds := []func(int) bool{func(n int) bool { return n >= 2 }, func(n int) bool { return n != 3 }, func(n int) bool { return n < 4 }}
+	strSubj := []string{"abcd", "a1", "abc1", "zz"}[subj]
+	intSubj := []int{4, 3, 8, 1}[subj]
+	lstSubj := [][]int{{1, 2}, {1}, {1, 2, 3}, {1, 2, 3, 4}}[subj]
+	violated := 0
+	add := func(fn z.BoolTFunc, apply func(z.Test), applyFn func(z.BoolTFunc, ...z.TestOption)) {
+		switch how {
+		case 0:
+			applyFn(fn, z.IssueCode("rule"))
+		case 1:
+			apply(z.TestFunc("rule", fn))
+		default:
+			// a reusable test value, copied and given this rule's function and the family's code
+			reusable := z.TestFunc("reusable_generic_code", fn)
+			q := reusable
+			q.IssueCode = "rule"
+			apply(q)
+		}
+	}
+	var d c01Rules
+	var issues []string
+	flat := func(m z.ZogIssueMap) {
+		for _, k := range sortedKeys(m) {
+			if k != "$first" {
+				for _, is := range m[k] {
+					issues = append(issues, k+"|"+is.Code)
+				}
+			}
+		}
+	}
+	ss, si, sl := z.String(), z.Int(), z.Slice(z.Int())
+	st := z.Struct(z.Schema{"s": z.String(), "n": z.Int()})
+	for i := 0; i < ntests; i++ {
+		i := i
+		switch kind {
+		case 0:
+			if !strPreds[i](strSubj) {
+				violated++
+			}
+			add(func(v any, c z.Ctx) bool { return strPreds[i](v.(string)) }, func(t z.Test) { ss.Test(t) }, func(fn z.BoolTFunc, o ...z.TestOption) { ss.TestFunc(fn, o...) })
+		case 1:
+			if !intPreds[i](intSubj) {
+				violated++
+			}
+			add(func(v any, c z.Ctx) bool { return intPreds[i](v.(int)) }, func(t z.Test) { si.Test(t) }, func(fn z.BoolTFunc, o ...z.TestOption) { si.TestFunc(fn, o...) })
+		case 2:
+			if !lenPreds[i](len(lstSubj)) {
+				violated++
+			}
+			add(func(v any, c z.Ctx) bool { return lenPreds[i](len(*(v.(*[]int)))) }, func(t z.Test) { sl.Test(t) }, func(fn z.BoolTFunc, o ...z.TestOption) { sl.TestFunc(fn, o...) })
+		default:
+			if !intPreds[i](intSubj) {
+				violated++
+			}
+			add(func(v any, c z.Ctx) bool { return intPreds[i](v.(*c01RulesSN).N) }, func(t z.Test) { st.Test(t) }, func(fn z.BoolTFunc, o ...z.TestOption) { st.TestFunc(fn, o...) })
+		}
+	}
+	pmsg := func() (msg string) {
+		defer func() {
+			if r := recover(); r != nil {
+				msg = firstLine(fmt.Sprint(r))
+			}
+		}()
+		switch kind {
+		case 0:
+			sc := z.Struct(z.Schema{"s": ss})
+			if mode == 0 {
+				flat(sc.Parse(map[string]any{"s": strSubj}, &d))
+			} else {
+				d.S = strSubj
+				flat(sc.Validate(&d))
+			}
+		case 1:
+			sc := z.Struct(z.Schema{"n": si})
+			if mode == 0 {
+				flat(sc.Parse(map[string]any{"n": intSubj}, &d))
+			} else {
+				d.N = intSubj
+				flat(sc.Validate(&d))
+			}
+		case 2:
+			sc := z.Struct(z.Schema{"l": sl})
+			if mode == 0 {
+				flat(sc.Parse(map[string]any{"l": lstSubj}, &d))
+			} else {
+				d.L = append([]int(nil), lstSubj...)
+				flat(sc.Validate(&d))
+			}
+		default:
+			var r c01RulesSN
+			if mode == 0 {
+				flat(st.Parse(map[string]any{"s": "x", "n": intSubj}, &r))
+			} else {
+				r = c01RulesSN{S: "x", N: intSubj}
+				flat(st.Validate(&r))
+			}
+		}
+		return ""
+	}()
+	zh.Reset()
+	kinds := []string{"String field", "Int field", "Slice field", "Struct (record-level tests)"}
+	out := &mc.Outcome{Traces: 1, Nontrivial: len(issues) == 0, Sig: fmt.Sprintf("sharedcode|%d|%d|%d|%d|%d", kind, ntests, how, subj, mode)}
+	out.Sample = map[string]any{"node": kinds[kind], "tests": ntests, "declared_through": how, "subject": subj, "mode": mode, "issues": issues}
+	if pmsg != "" || len(issues) != violated {
+		x.Note("%s carrying %d hand-written tests that share the issue code \"rule\" (declared through %d: 0 TestFunc+IssueCode, 1 Test(z.TestFunc(code, fn)), 2 products of one factory), subject #%d, mode %d", kinds[kind], ntests, how, subj, mode)
+		key := "C01:tests-sharing-a-code:issues"
+		if len(issues) < violated {
+			key = "C01:tests-sharing-a-code:clean-despite-violation"
+		}
+		out.Viol = append(out.Viol, &mc.Violation{Key: key, What: "every declared test is a test of its own, also when several share one issue code: one issue per violated predicate", Expected: fmt.Sprintf("%d issues", violated), Observed: fmt.Sprintf("panic=%q %v", pmsg, issues)})
+	}
+	return out
+}
+
+type c01RulesSN struct {
+	S string
+	N int
 }
